@@ -1956,6 +1956,18 @@ def evalv(e, env, facts):
     if k == "call" and re.search(r"is_power_of_two$", e[1]) and len(e[2]) == 1:
         v = evalv(e[2][0], env, facts)
         return int(v > 0 and v & (v - 1) == 0) if isinstance(v, int) else None
+    if k == "call" and re.search(r"(^|::)(min|max)(::<\w+>)?$", e[1]) and len(e[2]) == 2:
+        vs = [evalv(x, env, facts) for x in e[2]]
+        if not all(isinstance(x, int) for x in vs):
+            return None
+        return min(vs) if re.search(r"(^|::)min(::<\w+>)?$", e[1]) else max(vs)
+    if k == "call" and re.search(r"trailing_zeros$", e[1]) and len(e[2]) == 1:
+        v = evalv(e[2][0], env, facts)
+        if not isinstance(v, int) or v < 0:
+            return None
+        m = re.search(r"impl (u\d+|usize)>", e[1])
+        w = INT_BITS.get(m.group(1), 64) if m else 64
+        return w if v == 0 else (v & -v).bit_length() - 1
     if k == "call" and re.search(r"RangeInclusive<.*>::contains|RangeInclusive::<.*>::contains", e[1]) and len(e[2]) == 2:
         r = e[2][0]
         x = evalv(e[2][1], env, facts)
